@@ -16,7 +16,8 @@ CLAIMED = {
         "ascending database, pairwise disjoint roots in any order (C01_complete, by refinement to the abstract "
         "(root,cursor) loop); nothing outside the roots, nothing twice, order independence for ANY agent; single root "
         "strictly ascending for ANY agent; the model is tied to the code by end-to-end trace correspondence (small scope "
-        "+ random, v2c/v3)",
+        "+ random incl. usmStats subtrees, v2c/v3; big tables of 10^4+ instances judged by the oracle) and unit-level "
+        "correspondence of group_varbinds / get_unfinished_walk_oids / deduped_varbinds",
         "the theorems are about the model; the tie to raw.py/util.py is the trace correspondence (sampled); conformant agent semantics are spec-side definitions; codec / v3 framing are C05/C06/C09-C11",
     ),
     "C02": (
@@ -102,7 +103,8 @@ CLAIMED = {
         "proof: flags = level of the credentials (generated V3Flags code) and every confirmed-class request kind reportable "
         "(generated is_confirmed table, decide); security parameters = discovery result + user; digest = MAC over the datagram "
         "with twelve zero octets, and datagram / MAC input differ only in those twelve octets (in-place lemma over the message "
-        "structure); authentic responses at the credentials' level are accepted for every length; expansion buffer has n octets "
+        "structure); authentic responses at the credentials' level are accepted for every length and whatever objects they carry "
+        "(only Report-PDUs are searched for usmStats error objects: guard generated from validate_usm_message); expansion buffer has n octets "
         "with octet i = password[i mod |password|] for every non-empty password; localisation buffer Ku ++ engineId ++ Ku; tied "
         "by the reference RFC 3414 agent accepting every generated request, independent HMAC over the wire bytes, byte-exact "
         "comparison with the model, authentic responses sweeping all lengths 100..300, recording-hash key derivation",
@@ -179,7 +181,8 @@ CLAIMED = {
         "proof: flags = level of the credentials (generated V3Flags code) and every confirmed-class request kind reportable "
         "(generated is_confirmed table, decide); security parameters = discovery result + user; digest = MAC over the datagram "
         "with twelve zero octets, and datagram / MAC input differ only in those twelve octets (in-place lemma over the message "
-        "structure); authentic responses at the credentials' level are accepted for every length; expansion buffer has n octets "
+        "structure); authentic responses at the credentials' level are accepted for every length and whatever objects they carry "
+        "(only Report-PDUs are searched for usmStats error objects: guard generated from validate_usm_message); expansion buffer has n octets "
         "with octet i = password[i mod |password|] for every non-empty password; localisation buffer Ku ++ engineId ++ Ku; tied "
         "by the reference RFC 3414 agent accepting every generated request, independent HMAC over the wire bytes, byte-exact "
         "comparison with the model, authentic responses sweeping all lengths 100..300, recording-hash key derivation",
